@@ -1,6 +1,6 @@
 (* C16 — Every model is initialised exactly once, before it handles anything. *)
 Require Import NX.Base.Prelude NX.Base.ListX NX.Model.PQ NX.Model.Sim.
-Require Import NX.Proofs.SimBasic NX.Proofs.NetProofs.
+Require Import NX.Proofs.SimBasic NX.Proofs.NetProofs NX.Proofs.NetInit.
 
 (* The first start of a model task runs its init, exactly then: EInit is logged,
    the flag cleared, the init script installed, the mailbox left as it is
@@ -34,6 +34,35 @@ Theorem c16_only_starts_init :
       forallb (fun e => negb (is_init_entry e) && negb (is_handler_entry e)) added = true.
 Proof. exact other_steps_log. Qed.
 Print Assumptions c16_only_starts_init.
+
+(* Trace level: the initialisation invariant - the task of model m has logged
+   exactly one init once its flag is cleared, and neither an init nor any
+   handler entry while the flag is still set - holds initially and is kept by
+   every step of every schedule, hence along every run. *)
+Theorem c16_init_once_invariant_step :
+  forall b s l s', init_inv s -> net_step b s l = Some s' -> init_inv s'.
+Proof. exact net_step_init_inv. Qed.
+Print Assumptions c16_init_once_invariant_step.
+
+Theorem c16_init_once_invariant_run :
+  forall b fuel ch s nd s' nd', init_inv s -> net_run b fuel ch s nd = Some (s', nd') -> init_inv s'.
+Proof. exact net_run_init_inv. Qed.
+Print Assumptions c16_init_once_invariant_run.
+
+Theorem c16_initial_state :
+  forall b l, (forall m, inits m l = 0 /\ handled m l = 0) -> init_inv (set_log (init_state b) l).
+Proof. exact init_state_init_inv. Qed.
+Print Assumptions c16_initial_state.
+
+(* ... and when a run (in particular the one of SimInit::init) reaches quiescence
+   without failure, every added model has been initialised. *)
+Theorem c16_all_initialised_at_quiescence :
+  forall b s t x m sp,
+    net_enabled b s = [] -> err s = None ->
+    nth_error (tasks s) t = Some x -> tk x = TKModel m -> tdone x = false -> tfr x = None ->
+    nth_error (bmodels b) m = Some sp -> tinit x = false.
+Proof. exact quiescent_all_initialised. Qed.
+Print Assumptions c16_all_initialised_at_quiescence.
 
 (* Names: a sub-model is known as parent.child (paths of ancestors, root first;
    an empty name shows as <unknown>, here None). *)
